@@ -15,7 +15,7 @@ from props.c09 import mk, ordof, FREQ, CLS
 
 PROPERTY = "C11"
 LEVEL = "exploration"
-RULE = ("every period of each frequency in the year range; per period 10 representation round trips and, for each "
+RULE = ("every period of each frequency in the year range; per period 13 representation round trips (SDMX strings also as one-shot iterables) and, for each "
         "of the 5 target calendar frequencies x 3 positions, containment of the converted period; distinct "
         "non-trivial case = (frequency, ordinal)")
 MANIFEST_ENTRY = dict(level="exploration", design="DESIGN.md section 4 / C11",
@@ -26,6 +26,13 @@ ASSUMPTIONS = ["Python datetime/calendar are a correct proleptic Gregorian calen
 
 NS = {"yy": ir.yy, "hh": ir.hh, "qq": ir.qq, "mm": ir.mm, "dd": ir.dd, "ii": ir.ii}
 POS = ("start", "middle", "end")
+
+
+def _only(periods, n, k):
+    periods = tuple(periods)
+    if len(periods) != n:
+        raise ValueError("%d strings came back as %d periods" % (n, len(periods)))
+    return periods[k]
 
 
 def check_period(freq, o, res, prev_conv):
@@ -45,6 +52,10 @@ def check_period(freq, o, res, prev_conv):
         "sdmx_freq": lambda: D.Period.from_sdmx_string(p.to_sdmx_string(), frequency=F),
         "sdmx_list": lambda: D.periods_from_sdmx_strings([p.to_sdmx_string(), (p + 1).to_sdmx_string()])[0],
         "sdmx_list_last": lambda: D.periods_from_sdmx_strings([(p - 1).to_sdmx_string(), p.to_sdmx_string()])[-1],
+        # the same strings handed over as one-shot iterables (a generator, an iterator over one string, a map)
+        "sdmx_generator": lambda: _only(D.periods_from_sdmx_strings(s_ for s_ in (p.to_sdmx_string(), (p + 1).to_sdmx_string())), 2, 0),
+        "sdmx_iterator_single": lambda: _only(D.periods_from_sdmx_strings(iter([p.to_sdmx_string()])), 1, 0),
+        "sdmx_map": lambda: _only(D.periods_from_sdmx_strings(map(str, (p - 1, p))), 2, 1),
         "repr": lambda: eval(repr(p), dict(NS)),
         "str": lambda: D.Period.from_sdmx_string(str(p)),
     }
